@@ -121,7 +121,11 @@ def generate(rng, tier):
         elif pats:
             p = rng.choice(pats)
             muts.append({"op": "append", "path": IGNORABLE[p], "c": {"text": "zz"}, "fault": "edit_ignored_file"})
-    return {"world": env, "ops": ops, "mutations": muts}
+    judge = {"v": rng.random() < 0.3, "i": []}
+    if rng.random() < 0.15:
+        # patterns given at verification time only: recorded entries they match are out of the judgement altogether
+        judge["i"] = rng.sample(sorted(IGNORABLE) + ["*.mov", "sub", "B"], rng.randint(1, 2))
+    return {"world": env, "ops": ops, "mutations": muts, "judge": judge}
 
 
 MISMATCH_VERIFY = re.compile(r"^ERROR: hash mismatch\s+for (.*) old (\w+): \S+, new \w+: \S+$")
@@ -132,7 +136,7 @@ NEW_FILE = re.compile(r"^found new file (.*)$")
 
 def parse_reports(text):
     mism, missing, new = set(), set(), set()
-    lines = text.splitlines()
+    lines = text.split("\n")
     i = 0
     while i < len(lines):
         line = lines[i]
@@ -164,7 +168,8 @@ def execute(sc, ctx):
     if hv.error or not hv.generations:
         ctx.probe("setup_unreadable_na")
         return
-    pats = hv.latest_patterns() or observe.default_patterns()
+    judge = sc.get("judge") or {"v": False, "i": []}
+    pats = list(hv.latest_patterns() or observe.default_patterns()) + list(judge["i"])
     ig = observe.make_ignore(pats, w.root)
     sealed_files, sealed_dirs = observe.walk_nonignored(w.root, ig)
     sealed_bytes = {f: observe.read_bytes(f) for f in sealed_files}
@@ -199,6 +204,10 @@ def execute(sc, ctx):
             argv = ["create", wc.root] + [a for a in last[2:] if a != "-n"]
         else:
             argv = [name, wc.root]
+        for p_ in judge["i"]:
+            argv += ["-i", p_]
+        if judge["v"] and "-v" not in argv:
+            argv.append("-v")
         r = wc.run_cmd(argv)
         ctx.evaluations += 1
         ctx.steps += 1
@@ -269,6 +278,11 @@ def execute(sc, ctx):
 def shrink_candidates(sc):
     for muts in ddmin_list(sc["mutations"]):
         yield dict(sc, mutations=muts)
+    j = sc.get("judge") or {}
+    if j.get("v"):
+        yield dict(sc, judge=dict(j, v=False))
+    if j.get("i"):
+        yield dict(sc, judge=dict(j, i=j["i"][1:]))
     cmds = [i for i, o in enumerate(sc["ops"]) if scen.is_cmd(o)]
     for ops in ddmin_list(sc["ops"]):
         if any(scen.is_cmd(o) and "-sf" not in o["argv"] and o["argv"][1] == "@R" for o in ops):
